@@ -24,6 +24,8 @@ REQUIRED = [
     "serializable_ast_roundtrip", "type_node_roundtrip",
     "schema_eqspec", "eq_hash", "eq_hash_pytd", "eq_symm", "eq_trans", "eq_refl", "eq_hash_needs_perm",
     "canon_sort_idem", "canon_sort_perm",
+    "undo_aliases_local", "undo_aliases_longest_prefix", "undo_aliases_idempotent_partial",
+    "undo_aliases_idempotent_not_full",
 ]
 
 PREP = {"error": None, "notes": []}
@@ -908,8 +910,9 @@ def correspond(res, rng, tier):
   trace("file laws done")
   # ---- K2
   k2 = correspond_eqhash(res, rng, tier, R, drv, gen, disagreements)
+  n_undo = correspond_undo(res, rng, tier, R, drv, disagreements)
   trace("K2 done")
-  res.cov["evaluations"] = len(meta) + k2["pairs"]
+  res.cov["evaluations"] = len(meta) + k2["pairs"] + n_undo
   res.cov["distinct_nontrivial"] = len(distinct) + k2["distinct_classes"]
   res.cov["exhaustive"] = False
   res.cov["rule"] = (
@@ -998,6 +1001,55 @@ def build_pool(rng, R, gen, n_base):
       add(p.TupleType(t.base_type, t.parameters))
       add(p.CallableType(t.base_type, t.parameters))
   return pool
+
+
+def correspond_undo(res, rng, tier, R, drv, disagreements):
+  """serialize_ast.UndoModuleAliasesVisitor (real, one fresh instance per unit) against the Lean model `undoAlias`:
+  random alias tables and dotted names over a small component alphabet (so that prefixes collide), plus the shapes
+  of the known finding.  Also checks on the real code what the theorems say: names of a unit without aliases are
+  unchanged, and under the model's `noChain` a second visit changes nothing."""
+  p, su = R.pytd, R.serialize_ast
+  comps = ["a", "b", "foo", "bar", "gfx", "C", "\u00e9"]
+
+  def dotted(lo, hi):
+    return ".".join(rng.choice(comps) for _ in range(rng.randrange(lo, hi + 1)))
+  cases = [([("foo", "foo.bar")], "foo.Thing"), ([("foo", "foo.bar")], "foo.bar.Thing"), ([], "a.b.C"),
+           ([("shapes", "gfx.primitives"), ("gfx.colors", "gfx.colors"), ("gfx", "gfx")], "gfx.colors.Palette.Entry"),
+           ([("a", "b"), ("a", "C")], "a.x"), ([("a.b", "x"), ("a", "y")], "a.b.c.d"), ([("a", "x")], "a")]
+  for _ in range(600 if tier == "quick" else 6000):
+    al = [(dotted(1, 2), dotted(1, 3)) for _ in range(rng.randrange(0, 4))]
+    cases.append((al, dotted(1, 4)))
+  hx = lambda t: t.encode("utf-8").hex()
+  lines = ["undo %d %s %s" % (len(al), " ".join(hx(a) + " " + hx(m) for a, m in al), hx(n)) for al, n in cases]
+  lines = [" ".join(l.split()) for l in lines]
+  outs = drv.batch(lines)
+  n_rewritten = n_chain = 0
+  for (al, name), out in zip(cases, outs):
+    def visit(nm):
+      u = p.TypeDeclUnit(name="u", constants=(p.Constant("u.k", p.LateType(nm), None),), type_params=(), classes=(),
+                         functions=(), aliases=tuple(p.Alias("u." + a, p.Module(a, m)) for a, m in al))
+      return u.Visit(su.UndoModuleAliasesVisitor()).constants[0].type.name
+    real = visit(name)
+    try:
+      mh, chain = out.split(" ")
+      model = bytes.fromhex(mh).decode("utf-8")
+    except Exception:  # pylint: disable=broad-except
+      disagreements.append({"kind": "undo-aliases", "what": "driver answer unreadable", "line": out[:200]})
+      continue
+    n_rewritten += real != name
+    if real != model:
+      disagreements.append({"kind": "undo-aliases", "what": "UndoModuleAliasesVisitor differs from the model",
+                            "aliases": al, "name": name, "real": real, "model": model})
+      continue
+    if not al and real != name:
+      disagreements.append({"kind": "undo-aliases", "what": "a unit without aliases was rewritten", "name": name, "real": real})
+    if chain == "1":
+      n_chain += 1
+      if visit(real) != real:
+        disagreements.append({"kind": "undo-aliases", "what": "not idempotent although noChain holds", "aliases": al,
+                              "name": name, "once": real, "twice": visit(real)})
+  res.cov["undo_aliases"] = {"cases": len(cases), "rewritten": n_rewritten, "noChain_cases_checked_idempotent": n_chain}
+  return len(cases)
 
 
 def correspond_eqhash(res, rng, tier, R, drv, gen, disagreements):
